@@ -4,6 +4,9 @@
 (*                                                                         *)
 (* A definition D is a record                                              *)
 (*   ns, np, nd   number of states, parameters, derived parameters         *)
+(*   npx          number of parameter slots in the symbol table (>= np; a   *)
+(*                model may gain parameters later, which then take the next *)
+(*                free slot, so positions never move)                      *)
 (*   n            number of symbols; the symbol order is                   *)
 (*                  states (1..ns), t (ns+1), parameters, derived, atoms   *)
 (*                which is also the positional order (x, t, theta) of every *)
@@ -24,7 +27,7 @@ EXTENDS Poly
 
 TIdx(D)       == D.ns + 1
 ParamIdx(D,k) == D.ns + 1 + k
-DerIdx(D, k)  == D.ns + 1 + D.np + k
+DerIdx(D, k)  == D.ns + 1 + D.npx + k
 StateIdxs(D)  == 1..D.ns
 NE(D)         == Len(D.events)
 
@@ -155,7 +158,8 @@ ReactantIsSupport(D) ==
         (~PIsZero(VEntry(D, i, e))) => Reactant(D)[i][e] = 1
 
 WellFormed(D) ==
-    /\ D.n >= D.ns + 1 + D.np + D.nd
+    /\ D.npx >= D.np
+    /\ D.n >= D.ns + 1 + D.npx + D.nd
     /\ \A e \in 1..NE(D) : Len(D.events[e].trs) \in 1..3
     /\ \A e \in 1..NE(D) : \A k \in 1..Len(D.events[e].trs) :
           LET tr == D.events[e].trs[k] IN
